@@ -29,7 +29,8 @@
 (* poison / expression indices): TLC reports the counterexamples.          *)
 (*                                                                         *)
 (* Binding to the code: with Emit = TRUE every stage-3 state is written to *)
-(* gep_cases.ndjson as {elem, base, idxs, want}.  harness/props/c07        *)
+(* gep_cases.ndjson as {elem, base, idxs, want} (first line: the type      *)
+(* definitions {defs}).  harness/props/c07                                 *)
 (* renders each case as instruction, constant expression and alias, lets   *)
 (* llvm-as confirm that the result can be used at type `want`, and         *)
 (* compares six implementations of the library with `want`.                *)
@@ -132,5 +133,7 @@ ImplAgreesSeeing == ImplAgrees(TRUE)      \* constant-expression classifier (loo
 Out(rec) == Serialize(ToJson(rec) \o "\n", "gep_cases.ndjson",
                       [format |-> "TXT", charset |-> "UTF-8",
                        openOptions |-> <<"WRITE", "CREATE", "APPEND">>]).exitValue = 0
-EmitOK == (Emit /\ stage = 3) => Out([elem |-> el, base |-> ba, idxs |-> ix, want |-> Res])
+EmitOK == Emit =>
+            /\ stage = 0 => Out([defs |-> UG])
+            /\ stage = 3 => Out([elem |-> el, base |-> ba, idxs |-> ix, want |-> Res])
 =============================================================================
